@@ -154,7 +154,81 @@ class Models:
         np = norm_path(path)
         return self.dispatch(I, st, fr, t, {'path': path, 'gargs': []}, np, args, cont)
 
+    # ------------------------------------------------------------ iterator shims
+
+    SHIM_DRIVERS = {'find', 'any', 'all', 'find_map', 'position', 'for_each', 'fold', 'count', 'last'}
+    LAZY_MAKERS = {'map', 'filter', 'filter_map', 'take_while', 'skip_while', 'inspect'}
+    LAZY_PASS = {'by_ref', 'into_iter', 'fuse', 'cloned', 'copied'}
+
+    @staticmethod
+    def _is_lazy(v):
+        return v is not None and is_agg(v) and agg_kind(v).startswith('lazy:')
+
+    def _local_callable(self, I, st, a):
+        o = I.own(st, a)
+        if o is None:
+            return False
+        if is_agg(o) and agg_kind(o).startswith('closure:'):
+            return agg_kind(o)[len('closure:'):].split('|', 1)[0] in I.B
+        return VAL[o][0] == 'fn' and bool(VAL[o][2]) and VAL[o][2] in I.B
+
+    def shim_dispatch(self, I, st, fr, t, c, np, args, cont):
+        """Iterator drivers / lazy adapters that carry a local closure are executed through the plain-loop shim bodies
+        (analysis/shims.rs) instead of being treated as opaque externals."""
+        if not I.shims or cont[0] != 'mir' or not args:
+            return None
+        if np.startswith('std::iter::Iterator::') or np == 'std::iter::IntoIterator::into_iter':
+            name = np.rsplit('::', 1)[-1]
+        elif np.endswith('as std::iter::Iterator>::next') or np.endswith('as std::iter::IntoIterator>::into_iter'):
+            name = np.rsplit('::', 1)[-1]
+        else:
+            return None
+        recv = args[0]
+        rv = I.own(st, recv)
+        pointee = None
+        if is_ptr(recv):
+            try:
+                pointee = I.load(st, VAL[I.peel(st, recv)][1]) if is_ptr(I.peel(st, recv)) else I.peel(st, recv)
+            except Exception:
+                pointee = None
+        lazy_recv = self._is_lazy(rv) or self._is_lazy(pointee)
+        has_cb = any(self._local_callable(I, st, a) for a in args[1:])
+        if name in self.LAZY_MAKERS and has_cb and len(args) == 2:
+            return self.finish(I, st, fr, t, cont, AGG('lazy:' + name, 0, [rv if rv is not None else recv, I.own(st, args[1])]))
+        if name in self.LAZY_PASS and lazy_recv:
+            return self.finish(I, st, fr, t, cont, rv if self._is_lazy(rv) else recv)
+        if name == 'next' and self._is_lazy(pointee):
+            kind = agg_kind(pointee)[len('lazy:'):]
+            key = I.shims.get(kind + '_next')
+            p = I.peel(st, recv)
+            if key and is_ptr(p):
+                addr = VAL[p][1]
+                a0 = PTR((addr[0], addr[1], addr[2] + (('f', 0),)))
+                a1 = PTR((addr[0], addr[1], addr[2] + (('f', 1),)))
+                return I.call_local(st, fr, t, key, [a0, a1], {}, cont)
+            return None
+        if not (has_cb or lazy_recv):
+            return None
+        dts = I.T[t['dest_ty']]['s'] if t.get('dest_ty') is not None else ''
+        shim = None
+        if name in self.SHIM_DRIVERS:
+            shim = name
+        elif name == 'try_for_each':
+            shim = 'try_for_each_result' if dts.startswith('std::result::Result') else ('try_for_each_option' if dts.startswith('std::option::Option') else None)
+        elif name == 'try_fold' and dts.startswith('std::result::Result'):
+            shim = 'try_fold_result'
+        elif name == 'collect' and lazy_recv:
+            shim = 'collect_vec' if dts.startswith('std::vec::Vec') else ('collect_result_vec' if dts.startswith('std::result::Result<std::vec::Vec') else None)
+        key = I.shims.get(shim) if shim else None
+        if key is None:
+            return None
+        I.G.notes.append(('iterator shim', shim, fr.key))
+        return I.call_local(st, fr, t, key, list(args), {}, cont)
+
     def dispatch(self, I, st, fr, t, c, np, args, cont):
+        sh = self.shim_dispatch(I, st, fr, t, c, np, args, cont)
+        if sh is not None:
+            return sh
         m = self.specific.get(np)
         if m is not None:
             return m(I, st, fr, t, c, np, args, cont)
